@@ -1,27 +1,37 @@
 #!/usr/bin/env python3
-"""Development aid: apply a textual mutation to /repo, run quick checks, revert.
-usage: tools/mutate.py <file-rel-to-repo> <old> <new> <PROP> [<PROP> ...]   (old must occur exactly once unless --all)"""
+"""Development aid: apply a textual mutation to a scratch COPY of /repo and run quick checks against the copy.
+usage: tools/mutate.py <file-rel-to-repo> <old> <new> <PROP> [<PROP> ...]   (old must occur exactly once unless --all)
+   or: tools/mutate.py --patch <patchfile> <PROP> [...]"""
+import os
+import shutil
 import subprocess
 import sys
+import tempfile
 
-args = [a for a in sys.argv[1:] if a != "--all"]
+args = [a for a in sys.argv[1:] if a not in ("--all",)]
 allocc = "--all" in sys.argv
-rel, old, new = args[:3]
-props = args[3:]
-path = "/repo/" + rel
-dirty = subprocess.check_output(["git", "-C", "/repo", "status", "--porcelain", "--untracked-files=no"]).decode().strip()
-if dirty:
-    sys.exit("refusing: /repo has uncommitted changes:\n" + dirty)
-s = open(path).read()
-n = s.count(old)
-if n == 0 or (n > 1 and not allocc):
-    sys.exit("pattern occurs %d times" % n)
-open(path, "w").write(s.replace(old, new))
+os.makedirs("/root/scratch", exist_ok=True)
+scratch = tempfile.mkdtemp(prefix="mut-", dir="/root/scratch")
 try:
+    subprocess.check_call(["rsync", "-a", "--exclude", ".git", "--exclude", "__pycache__", "/repo/", scratch + "/"])
+    if args[0] == "--patch":
+        subprocess.check_call(["patch", "-p1", "-s", "-i", os.path.abspath(args[1])], cwd=scratch)
+        props = args[2:]
+    else:
+        rel, old, new = args[:3]
+        props = args[3:]
+        path = os.path.join(scratch, rel)
+        s = open(path).read()
+        n = s.count(old)
+        if n == 0 or (n > 1 and not allocc):
+            sys.exit("pattern occurs %d times" % n)
+        open(path, "w").write(s.replace(old, new))
+    env = dict(os.environ, VMON_REPO=scratch)
     for p in props:
-        r = subprocess.run(["./check", p, "--tier", "quick"], cwd="/verif", stdout=subprocess.PIPE, stderr=subprocess.STDOUT, text=True)
+        r = subprocess.run(["./check", p, "--tier", os.environ.get("MUT_TIER", "quick")], cwd="/verif", stdout=subprocess.PIPE,
+                           stderr=subprocess.STDOUT, text=True, env=env)
         lines = [l for l in r.stdout.split("\n") if l.startswith(("VIOLATION", "  key=", "HELD", "INCONCLUSIVE"))]
         print("== %s exit=%d" % (p, r.returncode))
         print("\n".join(lines[:8]))
 finally:
-    subprocess.check_call(["git", "-C", "/repo", "checkout", "--", "."])
+    shutil.rmtree(scratch, ignore_errors=True)
